@@ -110,7 +110,7 @@ CHECKS = {
         'centres); marker rows carry centre x / centre y under Yin / Yout as coded.',
    design='5/C18'),
  'C19': dict(
-   technique='Coq proof over strings (pure-path split/suffix/with_suffix, association-list merge and key filtering) + path/dict-level differential on a temporary tree with decoy files and dill round trips',
+   technique='Coq proof over strings (pure-path split/suffix/with_suffix, association-list merge and key filtering) + path/dict-level differential on a temporary tree with decoy files and dill round trips + source translator: LaserPath.export, helpers.load_parameters and from_dict of LaserPath / TrenchColumn are re-translated from /repo on every run and proved to be the model\'s export_target / yaml_target + load_doc / filter_keys (coq/tie/EquivPa.v)',
    text='Props/C19.v: for every path string the export and parameter-file targets keep the directory the caller named, \'.pkl\' / '
         '\'.yaml\' are added only when the suffix is missing, close writes export_dir/<stem>.pgm; every section inherits each '
         'DEFAULT key it does not define and overrides those it does, one result per non-DEFAULT section; from_dict keeps exactly '
